@@ -58,6 +58,48 @@ func permFromChooser(c *explore.Chooser, n int, label string) []int {
 type c11Target struct {
 	Type byte
 	Vec  gen.Vec
+	// Mod > 0: a CONNECT whose will message was changed through the shared
+	// pointer after SetWill (modification number Mod); outside the C01
+	// domain for round trips, but read-only operations must still be
+	// read-only and encodings repeatable on such a packet
+	Mod int
+}
+
+const c11Mods = 7
+
+// c11Modify applies modification m to the attached will of a CONNECT.
+func c11Modify(q mq.Packet, m int) {
+	c, ok := q.(*mq.Connect)
+	if !ok || m == 0 || c.Will() == nil {
+		return
+	}
+	w := c.Will()
+	if m == 1 || m == 7 {
+		w.SetQoS((w.QoS() + 1) % 3)
+	}
+	if m == 2 || m == 7 {
+		w.SetRetain(!w.Retain())
+	}
+	if m == 3 || m == 7 {
+		w.SetPayload([]byte("another payload"))
+	}
+	if m == 4 || m == 7 {
+		w.SetTopicName("other/topic")
+	}
+	if m == 5 || m == 7 {
+		w.SetContentType("ct2")
+	}
+	if m == 6 || m == 7 {
+		w.AddUserProp("wk2", "wv2")
+	}
+}
+
+func (t c11Target) describe() string {
+	d := gen.Schemas[t.Type].Describe(t.Vec)
+	if t.Mod > 0 {
+		d += fmt.Sprintf(" with the will changed after SetWill (modification %d)", t.Mod)
+	}
+	return d
 }
 
 func c11Targets() []c11Target {
@@ -75,7 +117,7 @@ func c11Targets() []c11Target {
 		}
 		base[wi] = 1
 		s.Subsets(base, wprops, func(v gen.Vec) bool {
-			out = append(out, c11Target{1, append(gen.Vec{}, v...)})
+			out = append(out, c11Target{Type: 1, Vec: append(gen.Vec{}, v...)})
 			return true
 		})
 	}
@@ -84,7 +126,7 @@ func c11Targets() []c11Target {
 	// map ranges appearing anywhere in an encoder are thereby exercised
 	for _, t := range allTypes {
 		s := gen.Schemas[t]
-		out = append(out, c11Target{t, s.Full()}, c11Target{t, s.Empty()})
+		out = append(out, c11Target{Type: t, Vec: s.Full()}, c11Target{Type: t, Vec: s.Empty()})
 		if len(s.Slots) == 0 {
 			continue
 		}
@@ -94,9 +136,37 @@ func c11Targets() []c11Target {
 		}
 		full := s.Full()
 		s.Deviations(full, all, 2, func(slot, val int) bool { return val != 0 }, func(v gen.Vec, nd int) bool {
-			out = append(out, c11Target{t, append(gen.Vec{}, v...)})
+			out = append(out, c11Target{Type: t, Vec: append(gen.Vec{}, v...)})
 			return true
 		})
+		// every single field at every boundary value below 16 KiB (every
+		// list shape, among them lists of 17 elements with repeats)
+		for _, base := range []gen.Vec{s.Empty(), full} {
+			s.Deviations(base, all, 1, func(slot, val int) bool {
+				sl := s.Slots[slot]
+				return (sl.Big != nil && sl.Big(val)) || (sl.N >= 256 && val > 8 && val != sl.Primary)
+			}, func(v gen.Vec, nd int) bool {
+				out = append(out, c11Target{Type: t, Vec: append(gen.Vec{}, v...)})
+				return true
+			})
+		}
+	}
+	out = append(out, c11ModTargets()...)
+	return out
+}
+
+func c11ModTargets() []c11Target {
+	var out []c11Target
+	s := gen.Schemas[1]
+	for _, full := range []bool{false, true} {
+		base := s.Empty()
+		if full {
+			base = s.Full()
+		}
+		base[s.SlotByName("will")] = 1
+		for m := 1; m <= c11Mods; m++ {
+			out = append(out, c11Target{Type: 1, Vec: append(gen.Vec{}, base...), Mod: m})
+		}
 	}
 	return out
 }
@@ -112,6 +182,7 @@ func c11Render(t c11Target, op string, c *explore.Chooser, uniform bool) (string
 	if err != nil || res.Panic != "" {
 		return "unbuildable", 0
 	}
+	c11Modify(q, t.Mod)
 	calls := 0
 	if c != nil {
 		perSite := map[int][]int{}
@@ -158,7 +229,7 @@ func c11OrderFinding(t c11Target, op string, choices []int, uniform bool) *core.
 	}
 	return &core.Finding{Class: "order-dependent/" + op + "/" + gen.Schemas[t.Type].Name,
 		Sig:    map[string]string{"op": op, "type": gen.Schemas[t.Type].Name},
-		Detail: fmt.Sprintf("%s: %s depends on map iteration order: sorted order gives %s, ordering %v gives %s", gen.Schemas[t.Type].Describe(t.Vec), op, clip(ref, 160), choices, clip(got, 160))}
+		Detail: fmt.Sprintf("%s: %s depends on map iteration order: sorted order gives %s, ordering %v gives %s", t.describe(), op, clip(ref, 160), choices, clip(got, 160))}
 }
 
 var c11Ops = []string{"WriteTo", "String", "Dump", "WellFormed", "accessors"}
@@ -188,7 +259,8 @@ func c11ReadOnly(t c11Target, seq []int) *core.Finding {
 	if err != nil || res.Panic != "" {
 		return nil
 	}
-	desc := gen.Schemas[t.Type].Describe(t.Vec)
+	c11Modify(q, t.Mod)
+	desc := t.describe()
 	roots := append([]any{q}, globalsRoots()...)
 	d0 := stateDigest(roots...)
 	// initial observations, accessors first: the initial String/Dump/WriteTo
@@ -304,7 +376,7 @@ func runC11(x *core.Ctx) {
 					if got != ref {
 						taken := c.Taken()
 						x.Report(c11OrderFinding(t, op, taken, mode.uniform), func() core.Case {
-							return core.Case{Harness: "c11.order", Choices: taken, Params: map[string]any{"type": int(t.Type), "vec": []int(t.Vec), "op": op, "uniform": mode.uniform}}
+							return core.Case{Harness: "c11.order", Choices: taken, Params: map[string]any{"type": int(t.Type), "vec": []int(t.Vec), "op": op, "uniform": mode.uniform, "mod": t.Mod}}
 						}, func() *core.Finding { return c11OrderFinding(t, op, taken, mode.uniform) })
 						return false
 					}
@@ -366,7 +438,7 @@ func runC11(x *core.Ctx) {
 			if x.Expired() {
 				return
 			}
-			t := c11Target{ty, v}
+			t := c11Target{Type: ty, Vec: v}
 			for _, sq := range seqs {
 				x.Eval("readonly")
 				x.R.Transitions += int64(len(sq))
@@ -427,7 +499,7 @@ func vecParam(c core.Case) gen.Vec {
 }
 
 func replayC11(c core.Case) *core.Finding {
-	t := c11Target{byte(paramInt(c.Params, "type")), vecParam(c)}
+	t := c11Target{Type: byte(paramInt(c.Params, "type")), Vec: vecParam(c), Mod: paramInt(c.Params, "mod")}
 	switch c.Harness {
 	case "c11.order":
 		u, _ := c.Params["uniform"].(bool)
